@@ -476,7 +476,13 @@ func (g *c09Rig) open() error {
 		}
 		g.hookedConns = nb + nt
 	}
-	// install the spies; nothing is running (quiescent) and both locks that guard the slice are held
+	g.installSpies()
+	return nil
+}
+
+// installSpies: nothing is running (quiescent) and both locks that guard the slice are held.
+func (g *c09Rig) installSpies() {
+	l := g.l
 	l.trackerMu.Lock()
 	l.trackers.mu.Lock()
 	trs := []ledgerTracker{&c09Spy{rig: g, first: true}}
@@ -488,7 +494,6 @@ func (g *c09Rig) open() error {
 	l.catchpoint.dbs = wrapped
 	l.trackers.mu.Unlock()
 	l.trackerMu.Unlock()
-	return nil
 }
 
 func c09Park(l *Ledger, parked bool) {
@@ -891,6 +896,9 @@ func (c *c09Case) evalImage(t *rapid.T, img *c09Image) {
 	case "postCommitUnlocked-before-catchpoint-work", "postCommitUnlocked-after-catchpoint-work", "postCommit", "after-tracker-db-transaction":
 		nontrivial = img.firstStage
 	}
+	if strings.HasPrefix(img.kind, "stop-while-queued") {
+		nontrivial = true
+	}
 	if img.faults != "" {
 		nontrivial = true
 		vk.Label("image-after-injected-commit-failure:" + img.kind)
@@ -958,6 +966,179 @@ func (c *c09Case) drain(t *rapid.T) {
 	}
 }
 
+// stopWhileQueued is the shutdown scenario "the block queue is stopped while blocks are queued": the block-DB flush is
+// stalled by a write lock held on a second connection of the block DB (BEGIN IMMEDIATE), 1-3 blocks are added (they sit
+// in the queue; the syncer is blocked beginning its transaction), one goroutine per added round calls WaitForCommit,
+// then Close() or reloadLedger() is started on another goroutine (both begin with blockQueue.stop(), which does not
+// drain the queue and waits for the syncer, i.e. for the stall). While everything stands still a crash image is taken
+// (= the process is killed during shutdown); every round whose WaitForCommit had RETURNED by then counts as confirmed
+// (oracle ii). Then the stall is released, the shutdown completes, a second image is taken, and the history continues on
+// the reopened / reloaded ledger from whatever is durable. On the clean tree a waiter for a block that was never flushed
+// does not return (it stays blocked on the closed ledger: the goroutine is left behind, by design of the scenario).
+// Wall clock is used only to stop waiting for waiters, never for a verdict.
+func (c *c09Case) stopWhileQueued(t *rapid.T, next *basics.Round) {
+	rig, vk := c.rig, c.vk
+	rig.quiesce()
+	l := rig.l
+	nAdd := rapid.IntRange(1, 3).Draw(t, "stop.blocks")
+	useReload := rapid.IntRange(0, 2).Draw(t, "stop.reload") == 0
+	lateWaiter := rapid.Bool().Draw(t, "stop.lateWaiter")
+	if int(c.n-*next)+1 < nAdd {
+		nAdd = int(c.n-*next) + 1
+	}
+	ctx := context.Background()
+	conn, err := l.blockDBs.Wdb.Handle.Conn(ctx)
+	if err != nil {
+		t.Fatalf("ENGINE: block db connection: %v", err)
+	}
+	stall, err := conn.BeginTx(ctx, nil) // _txlock=immediate: takes the write lock now
+	if err != nil {
+		conn.Close()
+		t.Fatalf("ENGINE: BEGIN IMMEDIATE on the block db: %v", err)
+	}
+	released := false
+	release := func() {
+		if !released {
+			released = true
+			stall.Rollback()
+			conn.Close()
+		}
+	}
+	defer release()
+	first := *next
+	returned := make([]atomic.Bool, nAdd+1)
+	wait := func(i int, r basics.Round) {
+		go func() {
+			l.WaitForCommit(r)
+			returned[i].Store(true)
+		}()
+	}
+	for i := 0; i < nAdd; i++ {
+		rig.upper.Store(uint64(*next))
+		if err := l.AddBlock(c.blocks[*next], engcCert); err != nil {
+			c.failf(t, "victim: adding block %d failed: %v", *next, err)
+		}
+		if !(lateWaiter && i == nAdd-1) {
+			wait(i, *next)
+		}
+		*next++
+	}
+	last := *next - 1
+	done := make(chan error, 1)
+	go func() {
+		if useReload {
+			done <- l.reloadLedger()
+		} else {
+			l.Close()
+			done <- nil
+		}
+	}()
+	// wait until blockQueue.stop() has been entered (running == false). If the syncer had not yet picked the blocks up when
+	// the stop came, it exits at once and reloadLedger() restarts the queue and returns before the poll sees running ==
+	// false: then the call has simply finished (the restarted syncer is the one stalled by the lock).
+	stopped, finished := false, false
+	var doneErr error
+	for deadline := time.Now().Add(10 * time.Second); time.Now().Before(deadline) && !stopped && !finished; time.Sleep(200 * time.Microsecond) {
+		select {
+		case doneErr = <-done:
+			finished = true
+		default:
+		}
+		l.blockQ.mu.Lock()
+		stopped = !l.blockQ.running
+		l.blockQ.mu.Unlock()
+	}
+	if !stopped && !finished {
+		t.Fatalf("ENGINE: blockQueue.stop() was not entered within 10s")
+	}
+	if lateWaiter {
+		wait(nAdd-1, last) // a caller that enters WaitForCommit after the stop
+	}
+	time.Sleep(150 * time.Millisecond) // give returning waiters the time to return; only used to stop waiting
+	confirmed := func() (basics.Round, string) {
+		var max basics.Round
+		var which []string
+		for i := 0; i < nAdd; i++ {
+			if returned[i].Load() {
+				r := first + basics.Round(i)
+				which = append(which, fmt.Sprint(r))
+				if r > max {
+					max = r
+				}
+			}
+		}
+		return max, strings.Join(which, ",")
+	}
+	conf1, which1 := confirmed()
+	if uint64(conf1) > rig.confirmed.Load() {
+		rig.confirmed.Store(uint64(conf1))
+	}
+	what := "Close"
+	if useReload {
+		what = "reloadLedger"
+	}
+	rig.force.Store(1)
+	rig.snap("stop-while-queued:"+what+"-in-progress", fmt.Sprintf("r%d..%d", first, last), c09RoleStopped, false)
+	rig.force.Store(0)
+	release()
+	if !finished {
+		select {
+		case doneErr = <-done:
+		case <-time.After(c09FlushTimeout):
+			t.Fatalf("ENGINE: %s did not return within %v after the stall was released", what, c09FlushTimeout)
+		}
+	}
+	if doneErr != nil {
+		c.failf(t, "%s with %d queued blocks failed: %v", what, nAdd, doneErr)
+	}
+	time.Sleep(20 * time.Millisecond)
+	conf2, which2 := confirmed()
+	if uint64(conf2) > rig.confirmed.Load() {
+		rig.confirmed.Store(uint64(conf2))
+	}
+	if useReload {
+		// the reloaded ledger restarts the block queue with the queue intact: everything gets flushed
+		rig.installSpies()
+		rig.quiesce()
+		rig.confirmed.Store(uint64(rig.l.Latest()))
+		rig.force.Store(1)
+		rig.snap("stop-while-queued:after-reloadLedger", fmt.Sprintf("r%d..%d", first, last), c09RoleMain, false)
+		rig.force.Store(0)
+		if rig.l.Latest() != last {
+			c.failf(t, "after reloadLedger with blocks %d..%d queued the ledger is at round %d", first, last, rig.l.Latest())
+		}
+	} else {
+		// the ledger is closed: the files are at rest
+		rig.force.Store(1)
+		rig.snap("stop-while-queued:after-Close", fmt.Sprintf("r%d..%d", first, last), c09RoleStopped, false)
+		rig.force.Store(0)
+		rig.l = nil
+		if err := rig.open(); err != nil {
+			c.failf(t, "OpenLedger after Close with queued blocks failed: %v", err)
+		}
+		k := rig.l.Latest()
+		if k < conf2 || k > last {
+			c.failf(t, "after Close with blocks %d..%d queued (WaitForCommit returned for rounds [%s]) the reopened ledger is at round %d", first, last, which2, k)
+		}
+		if k < last {
+			vk.Label("stop-while-queued:queued-blocks-lost-at-close(legitimate)")
+		}
+		*next = k + 1
+		rig.upper.Store(uint64(k))
+		rig.confirmed.Store(uint64(k))
+	}
+	c.tracef("stop-while-queued: stall, add %d..%d, %s; WaitForCommit returned during the stop for [%s], after it for [%s] -> latest %d", first, last, what, which1, which2, rig.l.Latest())
+	vk.Label("victim:stop-while-queued:" + what)
+	if which1 != "" {
+		vk.Label("stop-while-queued:waiter-returned-during-stop")
+	} else {
+		vk.Label("stop-while-queued:no-waiter-returned-during-stop")
+	}
+	if lateWaiter {
+		vk.Label("stop-while-queued:late-waiter")
+	}
+}
+
 func c09Run(tb *testing.T, t *rapid.T, vk *vkCtx) {
 	// ---- phase 1: the history (in-memory engine node; blocks, deltas and the model are kept)
 	w := engcNewWorld(tb, t, engcOpts{ForceMem: true, MaxGroupsPerBlock: 5, Label: vk.Label,
@@ -1001,7 +1182,15 @@ func c09Run(tb *testing.T, t *rapid.T, vk *vkCtx) {
 	vk.Labelf("history:fault-injection=%v", rig.inject)
 
 	next := basics.Round(1)
+	stops := 0
+	stopAt := basics.Round(rapid.IntRange(2, n).Draw(t, "stopWhileQueuedAt")) // every history has the shutdown scenario once, here
 	for next <= c.n {
+		if stops == 0 && next >= stopAt {
+			stops++
+			c.stopWhileQueued(t, &next)
+			c.drain(t)
+			continue
+		}
 		switch rapid.IntRange(0, 9).Draw(t, "step") {
 		case 0, 1, 2:
 			armed := 0
@@ -1019,6 +1208,11 @@ func c09Run(tb *testing.T, t *rapid.T, vk *vkCtx) {
 			vk.Label("victim:commit")
 			if armed > 0 {
 				vk.Labelf("victim:tracker-commit-failure-armed:fired=%v", rig.firedTrack.Load() > before)
+			}
+		case 4:
+			if stops < 2 && rapid.IntRange(0, 1).Draw(t, "stopWhileQueued") == 0 {
+				stops++
+				c.stopWhileQueued(t, &next)
 			}
 		case 3:
 			if rapid.IntRange(0, 3).Draw(t, "cleanReopen") == 0 {
@@ -1154,6 +1348,8 @@ const c09Rule = "fault enumeration: Engine C histories of 10-26 (thorough: 10-40
 	"and the feeding goroutine after every WaitForCommit/Wait return, between AddBlock calls and at quiescence (thorough: every instant; quick: a keyed 1/5 of the instants inside commits, 1/7 of the block-flush instants, 1/10 of the others, at most 20 per history). A copy is only taken while no other goroutine can be writing a database. " +
 	"Fault sequences: in 2/3 of the histories sqlite commit hooks are registered on the write connections of the block DB and the tracker DB (through database/sql Conn.Raw; the tracker store is rebuilt with the exported constructors and reloadLedger so that its handle is reachable) and drawn COMMITs are turned into rollbacks " +
 	"(the block flush of a burst; the registry's commit transaction or the 2nd/3rd tracker-DB transaction of a commit); the 4 instants after a failed COMMIT, the instant after every forced commit (1/6) and the final state are imaged as well. " +
+	"Shutdown scenario (up to 2 per history): the block-DB flush is stalled by a write lock held on a second connection, 1-3 blocks are added, one goroutine per round calls WaitForCommit (one of them possibly after the stop), Close() or reloadLedger() is started; " +
+	"an image is taken while the stop is in progress and one after it; every round whose WaitForCommit had returned counts as confirmed. " +
 	"One evaluation = one image reopened with OpenLedger and checked: contiguous byte-identical block prefix 1..k, k >= every confirmed durable round, tracker round <= k (read from the image before opening), all account/resource/kv/creator lookups and totals at every served round equal the model of the prefix, " +
 	"remaining blocks added on top converge to the full history. Non-trivial: image taken after the block DB flush with the tracker DB behind, during prepareCommit, inside the tracker transaction, or around a catchpoint first stage, or after an injected COMMIT failure. Distinct: by history, victim schedule and instant."
 
